@@ -23,7 +23,8 @@ ASSUMPTIONS = ['the table semantics (what rows the table holds after write) are 
                'bounded history run', 'strize (recursive normalisation of nested values) is covered by the bounded differential only']
 
 
-def mk_sql_dumper(it, mode, explicit_keys=False, updated_column=None, updated_id_column=None, mapped=True, dialect='sqlite', exists=None):
+def mk_sql_dumper(it, mode, explicit_keys=False, updated_column=None, updated_id_column=None, mapped=True, dialect='sqlite', exists=None,
+                  indexes=True):
     import z3
     from pyvc.api import real_function, Opaque, PyDict, PyList, UFunc, SV, sym_str, BoolS
     from pyvc.symex import Ev
@@ -38,8 +39,10 @@ def mk_sql_dumper(it, mode, explicit_keys=False, updated_column=None, updated_id
     keys = PyList(['k1', 'k2'])
     if explicit_keys:
         conf['update_keys'] = keys
-    idx = PyList([PyList(['i'])])
-    conf['indexes_fields'] = idx
+    idx = None
+    if indexes:
+        idx = PyList([PyList(['i'])])
+        conf['indexes_fields'] = idx
     tables = PyDict({'tbl': PyDict(conf)})
     kw = dict(engine=engine, batch_size=77, use_bloom_filter=False)
     if updated_column:
@@ -85,10 +88,10 @@ def sym_process_resource(vc):
     from pyvc import lib
     fk = vc.under_contract(D + 'to_sql.py', ['SQLDumper', 'process_resource'])
     vc.under_contract(D + 'to_sql.py', ['SQLDumper', '__init__'])
-    for mode in ('rewrite', 'append', 'update', None):
+    for mode, indexes in [(m_, True) for m_ in ('rewrite', 'append', 'update', None)] + [('rewrite', False), (None, False)]:
         for explicit in (False, True):
-            def thunk(it, mode=mode, explicit=explicit):
-                d, engine, storages, keys, idx, E0 = mk_sql_dumper(it, mode, explicit_keys=explicit)
+            def thunk(it, mode=mode, explicit=explicit, indexes=indexes):
+                d, engine, storages, keys, idx, E0 = mk_sql_dumper(it, mode, explicit_keys=explicit, indexes=indexes)
                 r = mk_resource(it, 'resource', name='res')
                 pk = PyList(['id'])
                 schema = PyDict({'fields': PyList([PyDict({'name': 'id', 'type': 'integer'}), PyDict({'name': 'o', 'type': 'object'})]),
@@ -99,7 +102,7 @@ def sym_process_resource(vc):
                 evs = it.path.events[n0:]
                 names = [e.method for e in evs if e.kind == 'Call' and e.target in storages]
                 eff = 'rewrite' if mode is None else mode
-                tag = '[%s,%s]' % (mode, 'explicit-keys' if explicit else 'primary-key')
+                tag = '[%s,%s%s]' % (mode, 'explicit-keys' if explicit else 'primary-key', '' if indexes else ',no-indexes')
                 st = storages[0] if storages else None
                 check(it, 'storage-bound-to-the-table-name' + tag, st is not None and st.made_with[0][0] is engine and
                       st.made_with[1].get('prefix') == 'tbl')
@@ -343,6 +346,25 @@ def nat_histories(h):
                 ref = [{k: (json.dumps(v) if isinstance(v, (list, dict)) else v) for k, v in t.items() if k in cols} for t in table]
                 key = lambda r: (r['id'], r['v'])
                 h.check(sorted(db, key=key) == sorted(ref, key=key), D + 'to_sql.py::SQLDumper.process_resource', cfg, ref, db)
+        finally:
+            shutil.rmtree(d, ignore_errors=True)
+    # rewrite after a dump whose columns had the same names but other types: the table holds exactly the dumped values
+    # (typed as dumped, not coerced to the previous column types), and a later update finds its row by that key
+    for first, second in (([{'id': 1, 'v': 5}, {'id': 2, 'v': 6}], [{'id': 1, 'v': '007'}, {'id': 3, 'v': '1e3'}, {'id': 4, 'v': 'x'}]),
+                          ([{'id': 1, 'v': 'a'}], [{'id': 1, 'v': 12}, {'id': 2, 'v': 7}])):
+        d = tempfile.mkdtemp(prefix='c20t_')
+        try:
+            eng = create_engine('sqlite:///' + os.path.join(d, 'db.sqlite'))
+            for rows, mode in ((first, 'rewrite'), (second, 'rewrite')):
+                got = h.run(lambda: Flow([dict(r) for r in rows], set_primary_key(['id']),
+                                         dump_to_sql({'t': {'resource-name': 'res_1', 'mode': mode}}, engine=eng)).process())
+                if got[0] != 'ok':
+                    break
+            with eng.connect() as c:
+                db = [dict(zip(['id', 'v'], row)) for row in c.execute(text('select id, v from t order by id'))]
+            h.check(got[0] == 'ok' and db == second and all(type(a['v']) is type(b['v']) for a, b in zip(db, second)),
+                    D + 'to_sql.py::SQLDumper.process_resource', ('rewrite after a dump with other column types', first, second), second,
+                    db if got[0] == 'ok' else got[:2])
         finally:
             shutil.rmtree(d, ignore_errors=True)
 
